@@ -1,6 +1,8 @@
 #!/bin/bash
-# Builds /repo/cmd/falco from the current working tree into $VERIF/.build/falco.
+# Builds cmd/falco from the current working tree of the repository into $VERIF/.build/falco
+# (or $VERIF_FALCO_BIN when a scratch copy is being checked).
 VERIF="${1:-/verif}"
+OUT="${VERIF_FALCO_BIN:-$VERIF/.build/falco}"
 export GOPROXY=off
 unset GOFLAGS GOTOOLCHAIN GOSUMDB 2>/dev/null || true
-cd "${VERIF_REPO:-/repo}" && go build -o "$VERIF/.build/falco" ./cmd/falco
+cd "${VERIF_REPO:-/repo}" && go build -o "$OUT" ./cmd/falco
